@@ -175,7 +175,15 @@ pub async fn apply(op: &Op, db: &GateDb, mgr: &StorageManager<GateDb>, m: &mut S
                     let mut want: Vec<DbRecord> = m.pending.values().filter(|r| !matches!(r, DbRecord::Azks(_))).cloned().collect();
                     want.sort_by_key(rec_key);
                     want.extend(m.pending.values().filter(|r| matches!(r, DbRecord::Azks(_))).cloned());
-                    let ok = r.is_ok() && log.len() == 1 && log[0].0 == want && log[0].1;
+                    // (the implementation may hand the records over in one batch or several: what matters is the
+                    // union, and that the epoch record is the last record of the last batch)
+                    let mut got: Vec<DbRecord> = log.iter().flat_map(|l| l.0.iter().filter(|r| !matches!(r, DbRecord::Azks(_))).cloned()).collect();
+                    got.sort_by_key(rec_key);
+                    let azks_only_in_last = log.iter().enumerate().all(|(i, l)| i + 1 == log.len() || !l.0.iter().any(|r| matches!(r, DbRecord::Azks(_))));
+                    if let Some(last) = log.last() {
+                        got.extend(last.0.iter().filter(|r| matches!(r, DbRecord::Azks(_))).cloned());
+                    }
+                    let ok = r.is_ok() && !log.is_empty() && got == want && azks_only_in_last && log.iter().all(|l| l.1);
                     if !ok {
                         violation = Some((
                             "commit_batch_differs_from_pending".to_string(),
